@@ -8,7 +8,7 @@ From C15 Require Import Gen_VersionTable Version VersionProofs TableCheck PreFix
 From C15 Require Arr MultiMap MultiMapProofs Table TableProofs.
 From MomoCommon Require Import GenPrelude.
 From C15 Require Gen_VersionKeeper Gen_ArrayIndexIterator Gen_ArrayShifter Gen_ArrayGuards Gen_MultiMapGuards Gen_SelectionGuards
-  Gen_TableGuards Gen_TreeIterator Gen_SegmentedArrayGuards Gen_DataRawIterator GuardProofs.
+  Gen_TableGuards Gen_TreeIterator Gen_SegmentedArrayGuards Gen_DataRawIterator Gen_MultiHashIterator GuardProofs.
 Import ListNotations.
 
 (* A handle (iterator / position) whose version snapshot differs from the current version of the container it was
@@ -581,7 +581,7 @@ Proof. exact TableCheck.no_noexcept_on_checked_paths_holds. Qed.
 Print Assumptions C15_no_noexcept_on_checked_paths.
 (* fix f5d4e4e as a generated fact: the range entry points check every row reference, the column sort / group / bounds of a selection check
    its keeper first *)
-Theorem C15_stale_check_sites : forallb (fun r => snd r) stale_check_sites = true /\ Nat.leb 6 (List.length stale_check_sites) = true.
+Theorem C15_stale_check_sites : forallb (fun r => snd r) stale_check_sites = true /\ Nat.leb 9 (List.length stale_check_sites) = true.
 Proof. exact TableCheck.stale_check_sites_hold. Qed.
 Print Assumptions C15_stale_check_sites.
 (* DataRawIterator (iterators of a DataSelection): operator+= exact for every ptrdiff_t diff (modular 64-bit sum, fix e44962b), the same
@@ -604,3 +604,68 @@ Theorem C15_gen_rawit_deref_exact :
     Gen_DataRawIterator.raw_arrow idx count_of raws = if (negb (raws =? 0) && (idx <? count_of raws))%Z then Ok tt else Exn.
 Proof. exact GuardProofs.rawit_deref_exact. Qed.
 Print Assumptions C15_gen_rawit_deref_exact.
+
+(* ---------- grow round 4: DataTable index look-up handles (FindByMultiHash bounds) ---------- *)
+(* generated code: DataRawMultiHashIterator::operator+= / operator-> (whole bodies; exception mode; real ptrdiff_t / size_t arithmetic) *)
+Theorem C15_gen_multihash_advance_exact :
+  forall r0 rb i cnt d, (0 <= i < 2 ^ 63)%Z -> (- 2 ^ 63 <= d < 2 ^ 63)%Z ->
+    Gen_MultiHashIterator.mh_add_assign r0 rb i cnt d =
+      if (d =? 0)%Z then Ok (tt, i) else if GuardProofs.mh_accepts r0 rb i cnt d then Ok (tt, (i + d)%Z) else Exn.
+Proof. exact GuardProofs.mh_advance_exact. Qed.
+Print Assumptions C15_gen_multihash_advance_exact.
+Theorem C15_gen_multihash_advance_within_count :
+  forall r0 rb i cnt d, (0 <= i <= cnt)%Z -> (- 2 ^ 63 <= d < 2 ^ 63)%Z -> d <> 0%Z -> (0 <= cnt < 2 ^ 63)%Z ->
+    (rb = 0%Z <-> (cnt <= 1)%Z) -> (r0 = 0%Z <-> cnt = 0%Z) ->
+    Gen_MultiHashIterator.mh_add_assign r0 rb i cnt d = if ((0 <=? i + d) && (i + d <=? cnt))%Z then Ok (tt, (i + d)%Z) else Exn.
+Proof. exact GuardProofs.mh_advance_within_count. Qed.
+Print Assumptions C15_gen_multihash_advance_within_count.
+Theorem C15_gen_multihash_advance_frame :
+  forall r0 rb i cnt d j, (0 <= i < 2 ^ 63)%Z -> (- 2 ^ 63 <= d < 2 ^ 63)%Z -> Gen_MultiHashIterator.mh_add_assign r0 rb i cnt d = Ok (tt, j) ->
+    j = (i + d)%Z /\ (0 <= j)%Z /\ (d <> 0%Z -> r0 <> 0%Z /\ (j <= cnt)%Z) /\ (rb = 0%Z -> d <> 0%Z -> (j <= 1)%Z).
+Proof. exact GuardProofs.mh_advance_frame. Qed.
+Print Assumptions C15_gen_multihash_advance_frame.
+Theorem C15_gen_multihash_deref_exact :
+  forall r0 rb i cnt, (0 <= i < 2 ^ 63)%Z ->
+    Gen_MultiHashIterator.mh_arrow r0 rb i cnt =
+      if ((i <? cnt)%Z && (if (i >? 0)%Z then negb (rb =? 0)%Z else negb (r0 =? 0)%Z)) then Ok tt else Exn.
+Proof. exact GuardProofs.mh_deref_exact. Qed.
+Print Assumptions C15_gen_multihash_deref_exact.
+(* the defect reported in this round (end / past-the-end iterator of FindByMultiHash bounds accepted) cannot come back unnoticed *)
+Theorem C15_gen_multihash_end_rejected :
+  forall r0 rb i cnt, (0 <= i < 2 ^ 63)%Z -> (cnt <= i)%Z -> Gen_MultiHashIterator.mh_arrow r0 rb i cnt = Exn.
+Proof. exact GuardProofs.mh_end_rejected. Qed.
+Print Assumptions C15_gen_multihash_end_rejected.
+Theorem C15_gen_multihash_past_end_unreachable :
+  forall r0 rb i cnt d, (0 <= i < 2 ^ 63)%Z -> (- 2 ^ 63 <= d < 2 ^ 63)%Z -> d <> 0%Z -> (cnt < i + d)%Z ->
+    Gen_MultiHashIterator.mh_add_assign r0 rb i cnt d = Exn.
+Proof. exact GuardProofs.mh_past_end_unreachable. Qed.
+Print Assumptions C15_gen_multihash_past_end_unreachable.
+(* hand model Table.v: exact accepted set of reads through index bounds, for every history *)
+Theorem C15_dt_bounds_accepted_iff_change_version_unchanged :
+  forall ops slot j, let s := Table.trun Table.tinit ops in
+    Table.bok (Table.tbs s slot) = true -> (j < List.length (Table.bids (Table.tbs s slot)))%nat ->
+    (Table.tstep s (Table.TBoundsAt slot j) = (s, Table.TAcc (Some (Table.bval (Table.tbs s slot)))) <->
+       Table.bcsnap (Table.tbs s slot) = Table.cver s) /\
+    (Table.bcsnap (Table.tbs s slot) <> Table.cver s ->
+       Table.tstep s (Table.TBoundsAt slot j) = (s, Table.TRej) /\ Table.tstep s (Table.TBoundsSum slot) = (s, Table.TRej)).
+Proof. exact TableProofs.dt_bounds_accepted_iff_change_version_unchanged. Qed.
+Print Assumptions C15_dt_bounds_accepted_iff_change_version_unchanged.
+Theorem C15_dt_current_bounds_rows_live :
+  forall ops slot id, let s := Table.trun Table.tinit ops in
+    Table.bok (Table.tbs s slot) = true -> Table.bcsnap (Table.tbs s slot) = Table.cver s ->
+    In id (Table.bids (Table.tbs s slot)) -> In (id, Table.bval (Table.tbs s slot)) (Table.rows s).
+Proof. exact TableProofs.dt_current_bounds_rows_live. Qed.
+Print Assumptions C15_dt_current_bounds_rows_live.
+Theorem C15_dt_bounds_out_of_range_rejected :
+  forall s slot j, Table.bok (Table.tbs s slot) = true -> (List.length (Table.bids (Table.tbs s slot)) <= j)%nat ->
+    Table.tstep s (Table.TBoundsAt slot j) = (s, Table.TRej).
+Proof. exact TableProofs.dt_bounds_out_of_range_rejected. Qed.
+Print Assumptions C15_dt_bounds_out_of_range_rejected.
+Theorem C15_dt_addrow_invalidates_bounds_not_references :
+  snd (Table.trun_out Table.tinit [Table.TAddRow 5; Table.TAddRow 5; Table.TFindMulti 5 20; Table.TRef 0 0; Table.TBoundsAt 20 1; Table.TAddRow 6;
+                                   Table.TBoundsAt 20 1; Table.TBoundsSum 20; Table.TRead 0; Table.TBoundsCount 20]) =
+  [Table.TAcc None; Table.TAcc None; Table.TAcc (Some 2%Z); Table.TAcc None; Table.TAcc (Some 5%Z); Table.TAcc None; Table.TRej; Table.TRej;
+   Table.TAcc (Some 5%Z); Table.TAcc (Some 2%Z)].
+Proof. exact TableProofs.dt_addrow_invalidates_bounds_not_references. Qed.
+Print Assumptions C15_dt_addrow_invalidates_bounds_not_references.
+
